@@ -159,25 +159,66 @@ func ruleP07IndexOrder(p *Prog, r *Report) {
 		}
 		if fa, ok := st.Addr.(*ssa.FieldAddr); ok && typeNameOf(fa.X.Type()) == "batchResult" && fieldName(fa) == "index" {
 			nIdxStores++
-			if strip(st.Val) == ssa.Value(work.Params[len(work.Params)-2]) {
+			if len(work.Params) >= 2 && strip(st.Val) == ssa.Value(work.Params[len(work.Params)-2]) {
 				okInit = true
 			}
 		}
 	})
+	// or the goroutine stamps its own index on the result of work before sending it
+	stampedByWorker := false
+	for _, g := range goSites(async) {
+		lit := funcLiteral(g.Call.Value)
+		if lit == nil || len(lit.Params) != 2 || !isIntType(lit.Params[0].Type()) || !isStringType(lit.Params[1].Type()) {
+			continue // (the goroutine that closes the channel is not a worker)
+		}
+		eachInstr(lit, func(in ssa.Instruction) {
+			st, ok := in.(*ssa.Store)
+			if !ok {
+				return
+			}
+			fa, ok := st.Addr.(*ssa.FieldAddr)
+			if !ok || typeNameOf(fa.X.Type()) != "batchResult" || fieldName(fa) != "index" {
+				return
+			}
+			nIdxStores++
+			a, isAlloc := fa.X.(*ssa.Alloc)
+			if !isAlloc || strip(st.Val) != ssa.Value(lit.Params[0]) {
+				return
+			}
+			sts := storesTo(a)
+			if len(sts) != 1 {
+				return
+			}
+			if c, _ := callOf(sts[0].val); c == nil || len(c.Common().Args) != 1 || strip(c.Common().Args[0]) != ssa.Value(lit.Params[1]) {
+				return
+			}
+			// what is sent is that very variable, after the stamp
+			for _, in2 := range st.Block().Instrs[instrIndex(st):] {
+				if sd, isSend := in2.(*ssa.Send); isSend {
+					if l, isL := strip(sd.X).(*ssa.UnOp); isL && l.Op == token.MUL && l.X == ssa.Value(a) {
+						okInit, stampedByWorker = true, true
+					}
+				}
+			}
+		})
+	}
 	r.check(okInit && nIdxStores == 1, rule, "work:index", p.pos(work.Pos()), "result.index = the batch index given to the worker", "the result's index field is not (only) initialised from the worker's batch-index parameter")
 	// the goroutine forwards its parameters to work in order; the go statement passes (range index, element)
 	for _, g := range goSites(async) {
 		lit := funcLiteral(g.Call.Value)
-		if lit == nil || len(lit.Params) != 2 {
-			continue
+		if lit == nil || len(lit.Params) != 2 || !isIntType(lit.Params[0].Type()) || !isStringType(lit.Params[1].Type()) {
+			continue // (the goroutine that closes the channel is not a worker)
 		}
 		okFwd := false
 		eachInstr(lit, func(in ssa.Instruction) {
 			c, ok := in.(*ssa.Call)
-			if !ok || c.Call.IsInvoke() || len(c.Call.Args) != 2 {
+			if !ok || c.Call.IsInvoke() || !(len(c.Call.Args) == 2 || stampedByWorker && len(c.Call.Args) == 1) {
 				return
 			}
-			if strip(c.Call.Args[0]) == ssa.Value(lit.Params[0]) && strip(c.Call.Args[1]) == ssa.Value(lit.Params[1]) {
+			if _, isB := c.Call.Value.(*ssa.Builtin); isB {
+				return
+			}
+			if (len(c.Call.Args) == 2 && strip(c.Call.Args[0]) == ssa.Value(lit.Params[0]) && strip(c.Call.Args[1]) == ssa.Value(lit.Params[1])) || (len(c.Call.Args) == 1 && strip(c.Call.Args[0]) == ssa.Value(lit.Params[1])) {
 				// callee is the captured work function
 				if fv, ok := deref(c.Call.Value).(*ssa.Parameter); ok && async != parse && fv == async.Params[2] {
 					okFwd = true
@@ -467,6 +508,14 @@ func ruleP07NoShare(p *Prog, r *Report) {
 						if f == root {
 							r.bad(rule, fnName(f)+":captured-write:"+fv.Name(), p.instrPos(in), "the worker writes the captured variable %s, which is shared between workers", fv.Name())
 						}
+					}
+				}
+			case *ssa.MapUpdate:
+				// an entry put into a package-level map (a memo, a cache): Go's maps are not safe for
+				// concurrent use — the runtime aborts the process ("concurrent map writes")
+				if u, ok := strip(x.Map).(*ssa.UnOp); ok && u.Op == token.MUL {
+					if g, isG := u.X.(*ssa.Global); isG && p.inModGlobal(g) {
+						r.bad(rule, fnName(f)+":global-map-write:"+g.Name(), p.instrPos(in), "an entry is put into the package-level map %s by code the parser workers run concurrently (path: %s): unsynchronised map writes abort the process, and what one worker stored another one reads", g.Name(), strings.Join(rc.path(f), " -> "))
 					}
 				}
 			case *ssa.UnOp:
